@@ -25,6 +25,10 @@ pub fn gen_case(rng: &mut Rng, cfg: &GenCfg, rep: &mut Report, flags: Option<Fla
     let node = Gen::new(rng, flags, cfg).pattern();
     let pat = ast::pattern_string(&node, flags);
     let fs = flags.to_string();
+    if std::env::var_os("RV_TRACE").is_some() {
+        // post-mortem aid: the pattern being worked on when the process is killed from outside
+        let _ = std::fs::write("/verif/.build/rv_trace.txt", format!("/{}/{}\n", pat, fs));
+    }
     let opt = guarded(|| compile(&pat, &fs, false));
     let noopt = guarded(|| compile(&pat, &fs, true));
     match (opt, noopt) {
@@ -64,7 +68,7 @@ pub fn run_exec(re: &Regex, exec: Exec, hay: &str, start: usize, limit: usize) -
     r
 }
 
-pub const FUEL_RETRY: u64 = 300_000_000;
+pub const FUEL_RETRY: u64 = 100_000_000;
 
 /// two results differ, and both are results (not an exhausted budget)
 pub fn differ(a: &str, b: &str) -> bool {
